@@ -81,7 +81,18 @@ def check(ch, cul, model, phrase, n, cls, pre='', post=''):
             e0 -= 1
         got[0] = (s0, e0) + got[0][2:]
     if len(got) != 1 or (got[0][0], got[0][1]) != span:
-        ch.fail('%s|%s|%s|%s' % (cul, model, cls, 'missing' if not got else 'split-or-span'), rec)
+        kind = 'missing' if not got else 'split-or-span'
+        if cul == 'en-us':
+            # the English integer set rotates with the seed, so English failure classes are named by what went wrong and
+            # by the numeral's structure, not by magnitude/shape: whether a ten..nineteen word precedes a scale word
+            words = phrase.replace('-', ' ').split()
+            scales = [i for i, w in enumerate(words) if w in ('thousand', 'million', 'billion', 'trillion')]
+            ctx = 'teen-before-a-scale-word' if any(i > 0 and words[i - 1] in numerals.EN_ONES[10:20] for i in scales) else 'other'
+            if len(got) == 1 and phrase.endswith(got[0][2]) and got[0][1] == span[1]:
+                kind = 'only-suffix-extracted'
+            ch.fail('%s|%s|%s|%s%s' % (cul, model, kind, ctx, '|and' if ' and ' in phrase else ''), rec)
+            return
+        ch.fail('%s|%s|%s|%s' % (cul, model, cls, kind), rec)
     elif got[0][3] != str(n):
         ch.fail('%s|%s|%s|value' % (cul, model, cls), rec)
     else:
